@@ -11,8 +11,8 @@ def bad : Bool → E → Bool
   | _, .fn name a => (fnName name).isNone || bad false a
   | _, .add a | _, .mul a | _, .and a | _, .or a => bad false a
   | _, .pow b x | _, .rel _ b x | _, .pair b x => bad false b || bad false x
-  | _, .pw ps => bad true ps
-  | m, .cons h t => bad false h || (if m && isTruePair h then false else bad m t)
+  | _, .pw ps => isList ps && bad true ps
+  | m, .cons h t => bad false h || (if m && isTruePair h then false else isList t && bad m t)
   | _, _ => false
 
 theorem join_ne_ok_left (a b : Status) (h : a ≠ .ok) : a.join b ≠ .ok := by
@@ -21,8 +21,108 @@ theorem join_ne_ok_left (a b : Status) (h : a ≠ .ok) : a.join b ≠ .ok := by
 theorem join_ne_ok_right (a b : Status) (h : b ≠ .ok) : a.join b ≠ .ok := by
   cases a <;> cases b <;> simp_all [Status.join]
 
+theorem cons_items (h t : E) :
+    (pr (.cons h t)).items = ⟨h, (pr h).st, (pr h).doc, (pr h).base, (pr h).items.map Item.one⟩ :: (pr t).items := by
+  simp only [pr]
+
 theorem bad_rejects (e : E) : ∀ m, bad m e = true →
-    (pr e).st ≠ .ok ∧ (m = true → (pwInner (pr e).items).1 ≠ .ok) ∧ (isTruePair e = true → False ∨ (pr e).st ≠ .ok) := by
-  sorry
+    (pr e).st ≠ .ok ∧ (m = true → isList e = true → (pwInner (pr e).items).1 ≠ .ok) := by
+  induction e with
+  | other w => intro m _; exact ⟨by simp [pr], by intro _ h; simp [isList] at h⟩
+  | fn name a iha =>
+      intro m hb
+      refine ⟨?_, by intro _ h; simp [isList] at h⟩
+      simp only [bad, Bool.or_eq_true, Option.isNone_iff_eq_none] at hb
+      simp only [pr]
+      split
+      next f hf =>
+        rcases hb with hb | hb
+        · rw [hf] at hb; cases hb
+        · exact (iha false hb).1
+      next => exact join_ne_ok_right _ _ (by simp)
+  | add a iha =>
+      intro m hb
+      refine ⟨?_, by intro _ h; simp [isList] at h⟩
+      simp only [pr]; split
+      · simp
+      · exact (iha false hb).1
+  | and a iha =>
+      intro m hb
+      refine ⟨?_, by intro _ h; simp [isList] at h⟩
+      simp only [pr]; split
+      · simp
+      · exact (iha false hb).1
+  | or a iha =>
+      intro m hb
+      refine ⟨?_, by intro _ h; simp [isList] at h⟩
+      simp only [pr]; split
+      · simp
+      · exact (iha false hb).1
+  | mul a iha =>
+      intro m hb
+      refine ⟨?_, by intro _ h; simp [isList] at h⟩
+      simp only [pr]; split
+      · simp
+      · exact (iha false hb).1
+  | pow b x ihb ihx =>
+      intro m hb
+      refine ⟨?_, by intro _ h; simp [isList] at h⟩
+      simp only [bad, Bool.or_eq_true] at hb
+      simp only [pr]; split
+      · simp
+      · rcases hb with hb | hb
+        · exact join_ne_ok_left _ _ (ihb false hb).1
+        · exact join_ne_ok_right _ _ (ihx false hb).1
+  | rel r b x ihb ihx =>
+      intro m hb
+      refine ⟨?_, by intro _ h; simp [isList] at h⟩
+      simp only [bad, Bool.or_eq_true] at hb
+      simp only [pr]
+      rcases hb with hb | hb
+      · exact join_ne_ok_left _ _ (ihb false hb).1
+      · exact join_ne_ok_right _ _ (ihx false hb).1
+  | pair b x ihb ihx =>
+      intro m hb
+      refine ⟨?_, by intro _ h; simp [isList] at h⟩
+      simp only [bad, Bool.or_eq_true] at hb
+      simp only [pr]
+      rcases hb with hb | hb
+      · exact join_ne_ok_left _ _ (ihb false hb).1
+      · exact join_ne_ok_right _ _ (ihx false hb).1
+  | pw ps ih =>
+      intro m hb
+      refine ⟨?_, by intro _ h; simp [isList] at h⟩
+      simp only [bad, Bool.and_eq_true] at hb
+      simp only [pr]
+      exact (ih true hb.2).2 rfl hb.1
+  | cons h t ihh iht =>
+      intro m hb
+      simp only [bad, Bool.or_eq_true] at hb
+      refine ⟨?_, ?_⟩
+      · simp only [pr]
+        rcases hb with hb | hb
+        · exact join_ne_ok_left _ _ (ihh false hb).1
+        · split at hb
+          · cases hb
+          · simp only [Bool.and_eq_true] at hb
+            exact join_ne_ok_right _ _ (iht m hb.2).1
+      · intro hm _
+        subst hm
+        rw [cons_items]
+        simp only [pwInner]
+        split
+        next htp =>
+          rcases hb with hb | hb
+          · exact (ihh false hb).1
+          · simp [htp] at hb
+        next htp =>
+          rcases hb with hb | hb
+          · exact join_ne_ok_left _ _ (ihh false hb).1
+          · simp only [Bool.true_and] at hb
+            split at hb
+            · cases hb
+            · simp only [Bool.and_eq_true] at hb
+              exact join_ne_ok_right _ _ ((iht true hb.2).2 rfl hb.1)
+  | _ => intro m hb; simp [bad] at hb
 
 end C11
